@@ -148,6 +148,16 @@ def specs(tier):
     return js
 
 
+def replay_programs(name, trace):
+    import ast
+    old_shape, new_shape = ast.literal_eval(trace[0]), ast.literal_eval(trace[1])
+    old, new = id_table(old_shape), id_table(new_shape)
+    if [t[:3] for t in new[:len(old)]] != [t[:3] for t in old]:
+        return 'C17 method ids change: old code %r has table %r, new code %r (only higher versions added) has %r' % (
+            old_shape, old, new_shape, new)
+    return None
+
+
 def main(tier, seed, job_filter=None):
     pj = [(programs_job, dict(name='programs:consumers<=%d' % (1 if tier == 'quick' else 2), max_consumers=1 if tier == 'quick' else 2))]
     extra = []
@@ -155,9 +165,10 @@ def main(tier, seed, job_filter=None):
         extra = core.run_jobs(pj)
     if job_filter and 'programs' in job_filter:
         rep = core.Report(PROP, tier, seed, TECH, ASSUME)
+        rep.replay_fn = replay_programs
         rep.add(extra)
         return rep.finish()
-    return jobs.run_cluster_check(PROP, tier, seed, specs(tier), CL, TECH, ASSUME, job_filter, extra_monitors=(VM,), extra_results=extra)
+    return jobs.run_cluster_check(PROP, tier, seed, specs(tier), CL, TECH, ASSUME, job_filter, extra_monitors=(VM,), extra_results=extra, extra_replay=replay_programs)
 
 
 def replay_file(path):
